@@ -2,7 +2,7 @@ From Coq Require Import Lia.
 (* C09 — stream discipline: position independence. *)
 From VF Require Import Model.Compiler.
 From VF Require Import Model.Reader Model.Writer Proofs.ReaderProps Proofs.ShiftProps Gen.GeneratedOk.
-From VF Require Proofs.CompilerProps Proofs.CompiledRoundTrip Proofs.CompilerGaps Proofs.CompiledAligned.
+From VF Require Proofs.CompilerProps Proofs.CompiledRoundTrip Proofs.CompilerGaps Proofs.CompilerStatic Proofs.CompiledAligned.
 Open Scope string_scope. Open Scope list_scope. Open Scope Z_scope.
 
 (* For every type (structures, unions, all four array forms, bit fields, pointers; aligned structures when the start offset is a multiple of
@@ -35,9 +35,9 @@ Theorem compiled_reader_position_independent : forall pre c fuel nm fs p,
   forall s pos, 0 <= pos -> CompilerProps.req (read_compiled c fuel false fs (pre ++ s) (zlen pre + pos)) (shift (zlen pre) (read_compiled c fuel false fs s pos)).
 Proof. exact CompiledRoundTrip.compiled_position_independent. Qed.
 
-(* ... and the compiled reader of an ALIGNED structure of scalars, for prefixes whose length is a multiple of the alignments (`shift_ok`) *)
+(* ... and the compiled reader of an ALIGNED structure with a static layout (scalars, nested structures and unions, arrays of them), for prefixes whose length is a multiple of the alignments (`shift_ok`) *)
 Theorem compiled_aligned_reader_position_independent : forall pre c fuel nm fs p,
-  Forall (CompilerGaps.acls c) fs -> NoDup (map f_name fs) -> CompiledAligned.size_fits c fs -> compile_plan c true fs = Ok p -> shift_ok pre c (TStruct nm fs true) = true ->
+  Forall (CompilerStatic.stcls c fuel true) fs -> NoDup (map f_name fs) -> CompiledAligned.size_fits c fs -> compile_plan c true fs = Ok p -> shift_ok pre c (TStruct nm fs true) = true ->
   forall s pos, 0 <= pos -> CompilerProps.req (read_compiled c fuel true fs (pre ++ s) (zlen pre + pos)) (shift (zlen pre) (read_compiled c fuel true fs s pos)).
 Proof. exact CompiledAligned.compiled_aligned_position_independent. Qed.
 
@@ -66,15 +66,19 @@ Example ex_shift : let s := [2; 0; 0; 0; 1; 2; 3; 4; 5; 6; 7; 8; 1; 0; 2; 0; 171
   rvz_eqb (read_top ex_cfg ex_ty (ex_pre ++ s) 8) (shift 8 (read_top ex_cfg ex_ty s 0)) = true.
 Proof. vm_compute. split; [eexists; reflexivity|reflexivity]. Qed.
 
-(* non-vacuity of the compiled aligned theorem: struct { uint8 a; uint32 b; int16 c; char d[3]; uint64 e; uint24 f; } aligned *)
+(* non-vacuity of the compiled aligned theorems: struct N { uint8 x; uint32 y; }; struct { uint8 a; N n; uint16 b; N arr[2]; char d[3]; uint8 m[2][2]; uint64 q; } aligned *)
 Definition exa_cfg := mkCfg "<" (PInt 8 false true) 8 [] [].
-Definition exa_fs := [Fld "a" false (TPrim (PInt 1 false true) 1) None None; Fld "b" false (TPrim (PInt 4 false true) 4) None None;
-                      Fld "c" false (TPrim (PInt 2 true true) 2) None None; Fld "d" false (TArr (TPrim PChar 1) (LFixed 3)) None None;
-                      Fld "e" false (TPrim (PInt 8 false true) 8) None None; Fld "f" false (TPrim (PInt 3 false false) 4) None None].
-Example exa_class : Forall (CompilerGaps.acls exa_cfg) exa_fs /\ NoDup (map f_name exa_fs) /\ CompiledAligned.size_fits exa_cfg exa_fs /\ (exists p, compile_plan exa_cfg true exa_fs = Ok p) /\ shift_ok [1; 2; 3; 4; 5; 6; 7; 8] exa_cfg (TStruct "m" exa_fs true) = true.
+Definition exa_N := TStruct "N" [Fld "x" false (TPrim (PInt 1 false true) 1) None None; Fld "y" false (TPrim (PInt 4 false true) 4) None None] true.
+Definition exa_fs := [Fld "a" false (TPrim (PInt 1 false true) 1) None None; Fld "n" false exa_N None None; Fld "b" false (TPrim (PInt 2 false true) 2) None None;
+                      Fld "arr" false (TArr exa_N (LFixed 2)) None None; Fld "d" false (TArr (TPrim PChar 1) (LFixed 3)) None None;
+                      Fld "m" false (TArr (TArr (TPrim (PInt 1 false true) 1) (LFixed 2)) (LFixed 2)) None None; Fld "q" false (TPrim (PInt 8 false true) 8) None None].
+Example exa_class : Forall (CompilerStatic.stcls exa_cfg 50 true) exa_fs /\ NoDup (map f_name exa_fs) /\ CompiledAligned.size_fits exa_cfg exa_fs /\ (exists p, compile_plan exa_cfg true exa_fs = Ok p) /\ shift_ok [1; 2; 3; 4; 5; 6; 7; 8] exa_cfg (TStruct "m" exa_fs true) = true.
 Proof.
   split; [|split; [|split; [|split]]].
-  - repeat (apply Forall_cons; [split; [reflexivity|]; split; [split; [reflexivity|]; split; [vm_compute; discriminate|vm_compute; split; [reflexivity|discriminate]]|vm_compute; discriminate]|]).
+  - repeat (apply Forall_cons; [split; [reflexivity|]; split; [split; [reflexivity|];
+        first [ left; split; [vm_compute; discriminate|vm_compute; split; [reflexivity|discriminate]]
+              | right; split; [reflexivity|]; split; [reflexivity|]; split; [apply CompilerProps.sub_ok_of_shift; [vm_compute; reflexivity|intros n H; vm_compute in H; injection H as <-; lia]|eexists; vm_compute; reflexivity] ]
+        | intros _; vm_compute; discriminate]|]).
     apply Forall_nil.
   - cbn. repeat constructor; cbn; intuition discriminate.
   - intros lay n H. vm_compute in H. injection H as <-. cbn [l_size]. intros H. injection H as <-. lia.
